@@ -9,8 +9,13 @@ generators, for x64 and (optimizing generator) arm64, for the collectors; EVERY 
   * every slot of every map is 8-aligned and inside the frame as it is at that call (frame pointer - stack pointer,
     computed by a data flow over the function), interior pairs likewise and disjoint from plain slots;
   * code ranges in .dora.functions are disjoint, ordered, one per function symbol; metadata slices partition their tables;
-  * location tables strictly increase, lie inside the function on instruction boundaries, inlined ids/parents valid.
+  * location tables strictly increase, lie inside the function on instruction boundaries, inlined ids/parents valid;
+  * no call that can collect is reachable from the entry before the first safepoint poll, and every cycle of the
+    control-flow graph contains a poll (C04's modelled poll exists in the code).
+Replay: `bin/check C10 --replay <json>` recompiles the recorded source with the recorded flags and re-analyses the one
+function (or the file-level relations) -- exit 1 + VIOLATION line if the recorded class of problem is still there.
 """
+import collections
 import hashlib
 import json
 import os
@@ -28,6 +33,7 @@ import stackmaps as sm  # noqa: E402
 
 HELLO = 'fn main() { println("hi"); }\n'
 BOOTS_SRC = os.path.join(vcommon.REPO, "pkgs", "boots", "boots.dora")
+BATCH = 8            # small files per worker task (they share one disassembler process)
 IMAGE_PARTS = 4      # processes sharing the analysis of one compiler image (3.5k functions, 1M instructions)
 KEYS_PER_CLASS = 6   # distinct function symbols that get a key of their own per (class, sub-class, generator, target)
 
@@ -91,96 +97,143 @@ def function_samples(a, T, arch, limit=2):
     return res
 
 
-def analyse_file(path, arch, only=None, want_samples=False, part=None):
-    """part = (k, n): only the functions with index % n == k (big files are analysed by n processes);
-    the file-level relations are checked by part 0."""
-    a = sm.parse(path)
-    funcs = None
+def select(a, only=None, part=None):
+    """the functions of a parsed file to analyse: all, the named ones, or part k of n (index % n == k)"""
     file_level = None
     if part is not None:
         k, n = part
         only = set(f.sym for f in a.funcs if f.index % n == k)
         file_level = (k == 0)
-    if only is not None:
-        funcs = [f for f in a.funcs if f.sym in only]
-    sm.disassemble(a, arch, funcs)
+    funcs = a.funcs if only is None else [f for f in a.funcs if f.sym in only]
+    return only, funcs, file_level
+
+
+def analyse_parsed(a, arch, only, file_level, want_samples=False):
+    """after disassembly: the checks, plus the digests of non-trivial functions and written-out samples"""
     problems, st = sm.analyse(a, arch, only=only, file_level=file_level)
     digests = set()
     samples = []
-    if only is None or part is not None:
-        try:
-            T = sm.tables(a)
-        except sm.ParseError:
-            T = None
-        if T:
-            for e in T["functions"]:
-                fl = a.by_sym.get(e.start[0])
-                if not fl or e.gc_len == 0 or e.gc_start + e.gc_len > len(T["gcpoints"]):
-                    continue
-                if only is not None and e.start[0] not in only:
-                    continue
-                h = hashlib.blake2b(digest_size=8)
-                h.update(arch.encode())
-                h.update(bytes(fl[0].code))
-                for g in T["gcpoints"][e.gc_start:e.gc_start + e.gc_len]:
-                    h.update(repr((g[0], T["offsets"][g[1]:g[1] + g[2]], T["interior"][g[3]:g[3] + g[4]])).encode())
-                digests.add(h.digest())
-            if want_samples:
-                samples = function_samples(a, T, arch)
+    try:
+        T = sm.tables(a)
+    except sm.ParseError:
+        T = None
+    if T:
+        for e in T["functions"]:
+            fl = a.by_sym.get(e.start[0])
+            if not fl or e.gc_len == 0 or e.gc_start + e.gc_len > len(T["gcpoints"]):
+                continue
+            if only is not None and e.start[0] not in only:
+                continue
+            h = hashlib.blake2b(digest_size=8)
+            h.update(arch.encode())
+            h.update(bytes(fl[0].code))
+            for g in T["gcpoints"][e.gc_start:e.gc_start + e.gc_len]:
+                h.update(repr((g[0], T["offsets"][g[1]:g[1] + g[2]], T["interior"][g[3]:g[3] + g[4]])).encode())
+            digests.add(h.digest())
+        if want_samples:
+            samples = function_samples(a, T, arch)
     return problems, st, digests, samples
 
 
-def _analyse_into(res, path, job, part=None):
+def analyse_file(path, arch, only=None, want_samples=False, part=None, tmpdir=None):
+    """part = (k, n): only the functions with index % n == k (big files are analysed by n processes);
+    the file-level relations are checked by part 0."""
+    a = sm.parse(path)
+    only, funcs, file_level = select(a, only, part)
+    sm.disassemble(a, arch, funcs, tmpdir=tmpdir)
+    return analyse_parsed(a, arch, only, file_level, want_samples)
+
+
+def _result(job):
+    return {"id": job["id"], "skipped": None, "problems": [], "stats": None, "digests": set(), "samples": [], "error": None,
+            "t_compile": 0.0, "t_total": 0.0, "asm": None, "cpu_compile": 0.0, "cpu_llvm": 0.0, "cpu_py": 0.0}
+
+
+def _cpu(c0, c1):
+    return ((c1.children_user - c0.children_user) + (c1.children_system - c0.children_system),
+            (c1.user - c0.user) + (c1.system - c0.system))
+
+
+def work(args):
+    """a batch of jobs of one target architecture: every file is compiled to assembly and parsed, ONE disassembler
+    process decodes the functions of all of them, then every function of every file is analysed; files are dropped.
+    A big job (job["parts"] > 1, alone in its batch) is only compiled here; work_part analyses it in `parts` processes.
+    Runs in a worker process."""
+    dora, batch, outdir = args
+    results = []
+    parsed = []
+    arch = "x64" if batch[0]["target"] == "x64" else "arm64"
+    for job in batch:
+        t0 = time.time()
+        c0 = os.times()
+        res = _result(job)
+        results.append(res)
+        path, err = compile_job(dora, job, outdir, job.get("timeout", 300))
+        res["t_compile"] = res["t_total"] = time.time() - t0
+        res["cpu_compile"] = _cpu(c0, os.times())[0]
+        if path is None:
+            res["skipped"] = err
+            continue
+        if job.get("parts", 1) > 1:
+            res["asm"] = path
+            continue
+        try:
+            a = sm.parse(path)
+            parsed.append((job, res, a))
+        except sm.ParseError as e:
+            res["error"] = "cannot read %s: %s" % (os.path.basename(path), e)
+        finally:
+            try:
+                os.remove(path)
+            except OSError:
+                pass
+    if parsed:
+        t0 = time.time()
+        c0 = os.times()
+        try:
+            sm.disassemble(None, arch, [f for _, _, a in parsed for f in a.funcs], tmpdir=outdir)
+            err = None
+        except sm.ParseError as e:
+            err = str(e)
+        for job, res, a in parsed:
+            if err:
+                res["error"] = "disassembly failed: " + err
+                continue
+            try:
+                problems, st, digests, samples = analyse_parsed(a, arch, None, None, job.get("sample", False))
+                res["problems"] = [(p.cls, p.sub, p.sym, p.text, p.data) for p in problems]
+                res["stats"] = st
+                res["digests"] = digests
+                res["samples"] = samples
+            except sm.ParseError as e:
+                res["error"] = "analysis failed: %s" % e
+        cl, cp = _cpu(c0, os.times())
+        dt = time.time() - t0
+        for job, res, a in parsed:
+            res["cpu_llvm"] = cl / len(parsed)
+            res["cpu_py"] = cp / len(parsed)
+            res["t_total"] += dt / len(parsed)
+    return results
+
+
+def work_part(args):
+    job, path, k, n, outdir = args
+    t0 = time.time()
+    c0 = os.times()
+    res = _result(job)
+    res["part"] = k
     try:
         arch = "x64" if job["target"] == "x64" else "arm64"
-        problems, st, digests, samples = analyse_file(path, arch, want_samples=job.get("sample", False), part=part)
+        problems, st, digests, samples = analyse_file(path, arch, want_samples=job.get("sample", False), part=(k, n), tmpdir=outdir)
         res["problems"] = [(p.cls, p.sub, p.sym, p.text, p.data) for p in problems]
         res["stats"] = st
         res["digests"] = digests
         res["samples"] = samples
     except sm.ParseError as e:
         res["error"] = "cannot read %s: %s" % (os.path.basename(path), e)
-
-
-def _result(job):
-    return {"id": job["id"], "skipped": None, "problems": [], "stats": None, "digests": set(), "samples": [], "error": None,
-            "t_compile": 0.0, "t_total": 0.0, "asm": None}
-
-
-def work(args):
-    """one job: compile to assembly, analyse every function, drop the file.  Runs in a worker process.
-    Big jobs (job["parts"] > 1) only compile here; their functions are analysed by work_part in `parts` processes."""
-    dora, job, outdir = args
-    t0 = time.time()
-    res = _result(job)
-    path, err = compile_job(dora, job, outdir, job.get("timeout", 300))
-    res["t_compile"] = time.time() - t0
-    if path is None:
-        res["skipped"] = err
-        return res
-    if job.get("parts", 1) > 1:
-        res["asm"] = path
-        res["t_total"] = time.time() - t0
-        return res
-    try:
-        _analyse_into(res, path, job)
-    finally:
-        try:
-            os.remove(path)
-        except OSError:
-            pass
+    res["cpu_llvm"], res["cpu_py"] = _cpu(c0, os.times())
     res["t_total"] = time.time() - t0
-    return res
-
-
-def work_part(args):
-    job, path, k, n = args
-    t0 = time.time()
-    res = _result(job)
-    res["part"] = k
-    _analyse_into(res, path, job, part=(k, n))
-    res["t_total"] = time.time() - t0
-    return res
+    return [res]
 
 
 # ---------------------------------------------------------------------------------------------
@@ -188,10 +241,12 @@ def work_part(args):
 
 def unit_sources(tier):
     """generated family units (lambdas, trait objects, generics, tuples, structs with references, collections, traps)"""
-    import fam_call, fam_data, fam_coll, fam_compose, fam_trap
+    import fam_call, fam_data, fam_coll, fam_compose, fam_trap, fam_stdlib
     out = []
-    per_unit = 150
-    for name, mod in (("call", fam_call), ("data", fam_data), ("coll", fam_coll), ("compose", fam_compose)):
+    per_unit = 60 if tier == "quick" else 150
+    # stdlib: calls of the public functions of pkgs/std with boundary arguments -- pulls a wide part of pkgs/std into the
+    # artifact (hello world alone reaches 9 functions); a unit of it that does not compile is skipped with its reason
+    for name, mod in (("call", fam_call), ("data", fam_data), ("coll", fam_coll), ("compose", fam_compose), ("stdlib", fam_stdlib)):
         cases = mod.cases(quick=True)
         units = core.pack(cases, per_unit=per_unit)
         if tier == "quick":
@@ -199,7 +254,8 @@ def unit_sources(tier):
         for u in units:
             out.append(("unit:%s:%d" % (name, u.uid), u.source(), len(u.cases)))
     specs = fam_trap.specs(quick=True)
-    chunks = [specs[i:i + 120] for i in range(0, len(specs), 120)]
+    n = 50 if tier == "quick" else 120
+    chunks = [specs[i:i + n] for i in range(0, len(specs), n)]
     if tier == "quick":
         chunks = chunks[:1]
     for ci, chunk in enumerate(chunks):
@@ -218,9 +274,9 @@ def corpus_sources(tier):
         srcs.append(e.src)
     srcs.sort()
     if tier == "quick":
-        # a fixed 5 % of the corpus, rotated by VERIF_SEED; thorough takes every file
-        k = vcommon.seed() % 20
-        srcs = srcs[k::20]
+        # a fixed 4 % of the corpus, rotated by VERIF_SEED; thorough takes every file
+        k = vcommon.seed() % 25
+        srcs = srcs[k::25]
     return srcs
 
 
@@ -242,11 +298,13 @@ def make_jobs(tier, scratch):
     hello = os.path.join(scratch, "hello.dora")
     open(hello, "w").write(HELLO)
     for be, tg in CONFIGS:
-        for gc in all_gcs:
+        for gc in (None, "copy", "sweep", "zero"):
             add("hello", hello, be, tg, gc, sample=(gc is None), must=True, family="hello")
     # the optimizing compiler itself (3.5k functions incl. the part of pkgs/std it reaches)
     image_gcs = [None] if quick else [None, "copy"]
     for be, tg in CONFIGS:
+        if quick and (be, tg) == ("boots", "x64"):
+            continue  # quick: the production image (baseline generator) and the arm64 one, which nothing else can examine
         for gc in image_gcs:
             add("boots-image", BOOTS_SRC, be, tg, gc, extra=["--internal-compile-boots"], timeout=1500, weight=100, must=True, family="boots-image", parts=IMAGE_PARTS)
     if not quick:
@@ -256,18 +314,30 @@ def make_jobs(tier, scratch):
     for label, text, ncases in unit_sources(tier):
         p = os.path.join(scratch, label.replace(":", "_") + ".dora")
         open(p, "w").write(text)
+        std = label.startswith("unit:stdlib")
         for be, tg in CONFIGS:
             for gc in all_gcs:
-                add(label, p, be, tg, gc, timeout=900, weight=10, must=True, family="units")
-    # corpus: the write barrier (the only collector-dependent code) is emitted by the baseline generator for every
-    # collector and by the optimizing one for swiper only: swiper + copy cover both code shapes; sweep/zero on every
-    # 8th file confirm it
+                if quick and gc == "copy" and ((be, tg) != ("boots", "x64") or std):
+                    continue
+                if std and gc in ("sweep", "zero"):
+                    continue
+                add(label, p, be, tg, gc, timeout=900, weight=10, must=not std, family="units")
+    # corpus.  The write barrier is the only collector-dependent code: the baseline generator emits it for every
+    # collector, the optimizing one for swiper only (dora-compiler/src/aot_compile.rs needs_write_barrier).  So: swiper for
+    # every file and configuration; copy for the optimizing generator on every 2nd file; all four collectors for all
+    # configurations on every 16th file, where the claim above is also measured (collector_code_equivalence).
     files = corpus_sources(tier)
     for i, src in enumerate(files):
+        label = os.path.relpath(src, corpus.REPO) if src.startswith(corpus.REPO) else src
         for be, tg in CONFIGS:
-            gcs = [None] if quick else ([None, "copy", "sweep", "zero"] if i % 8 == 0 else [None, "copy"])
+            if quick:
+                gcs = [None]
+            elif i % 16 == 0:
+                gcs = [None, "copy", "sweep", "zero"]
+            else:
+                gcs = [None, "copy"] if (be == "boots" and i % 2 == 0) else [None]
             for gc in gcs:
-                add(os.path.relpath(src, vcommon.REPO) if src.startswith(vcommon.REPO) else src, src, be, tg, gc, sample=(i == 0 and gc is None))
+                add(label, src, be, tg, gc, sample=(i == 0 and gc is None))
     return jobs, len(files)
 
 
@@ -298,7 +368,8 @@ def replay_object(job, cls, sub, sym, text, data):
 
 def main(tier):
     c = vcommon.Check("C10", tier, "exploration")
-    vcommon.build_plain(need_boots=True)
+    # nothing is linked or executed here: only the compiler host is needed (the toolchain without debug assertions; the
+    # code generators themselves are the same sources, and the optimizing one is a Dora program either way)
     fastdir = vcommon.build_fast(need_boots=True)
     dora = os.path.join(fastdir, "dora")
     scratch = vcommon.scratch_dir("c10")
@@ -312,47 +383,69 @@ def main(tier):
         results = {}
         t0 = time.time()
         by_id = dict((j["id"], j) for j in jobs)
+        # batches: big and medium jobs alone, small ones in groups of BATCH per (generator, target) -- one disassembler
+        # process per batch instead of one per file
+        batches = []
+        groups = {}
+        for j in order:
+            if j["weight"] > 1:
+                batches.append([j])
+            else:
+                g = groups.setdefault((j["backend"], j["target"]), [])
+                g.append(j)
+                if len(g) == BATCH:
+                    batches.append(list(g))
+                    del g[:]
+        batches += [g for g in groups.values() if g]
         with ProcessPoolExecutor(max_workers=vcommon.NCPU) as ex:
-            pending = set(ex.submit(work, (dora, j, outdir)) for j in order)
+            # own queue in front of the executor's: the parts of a big file go to its head as soon as the file exists
+            todo = collections.deque((work, (dora, b, outdir)) for b in batches)
+            pending = set()
             parts_left = {}
             done = 0
-            while pending:
+            while pending or todo:
+                while todo and len(pending) < vcommon.NCPU + 2:
+                    fn, arg = todo.popleft()
+                    pending.add(ex.submit(fn, arg))
                 finished, pending = wait(pending, return_when=FIRST_COMPLETED)
                 for fu in finished:
-                    r = fu.result()
-                    j = by_id[r["id"]]
-                    if r.get("asm"):
-                        # a big file: analysed in parts, each by its own process (placed at the head of the queue is not
-                        # possible with this executor; they are few)
-                        n = j["parts"]
-                        parts_left[j["id"]] = [n, r]
-                        r["stats"] = {}
-                        for k in range(n):
-                            pending.add(ex.submit(work_part, (j, r["asm"], k, n)))
-                        continue
-                    if "part" in r:
-                        left = parts_left[j["id"]]
-                        acc = left[1]
-                        left[0] -= 1
-                        acc["error"] = acc["error"] or r["error"]
-                        if r["stats"]:
-                            merge_stats(acc["stats"], r["stats"])
-                        acc["problems"] += r["problems"]
-                        acc["digests"] |= r["digests"]
-                        acc["samples"] += r["samples"]
-                        acc["t_total"] += r["t_total"]
-                        if left[0] > 0:
+                    for r in fu.result():
+                        j = by_id[r["id"]]
+                        if j["weight"] >= 100:
+                            vcommon.log("  c10: %s [%s] %s: compile %.0fs, total %.0fs, at %.0fs" % (
+                                j["label"], cfg_name(j), "part %s" % r["part"] if "part" in r else "compiled", r["t_compile"], r["t_total"], time.time() - t0))
+                        if r.get("asm"):
+                            # a big file: analysed in parts, each by its own process
+                            n = j["parts"]
+                            parts_left[j["id"]] = [n, r]
+                            r["stats"] = {}
+                            for k in range(n):
+                                todo.appendleft((work_part, (j, r["asm"], k, n, outdir)))
                             continue
-                        try:
-                            os.remove(acc["asm"])
-                        except OSError:
-                            pass
-                        acc["asm"] = None
-                        r = acc
-                    results[r["id"]] = r
-                    done += 1
-                    if done % 200 == 0:
-                        vcommon.log("  c10: %d/%d files analysed (%.0fs)" % (done, len(jobs), time.time() - t0))
+                        if "part" in r:
+                            left = parts_left[j["id"]]
+                            acc = left[1]
+                            left[0] -= 1
+                            acc["error"] = acc["error"] or r["error"]
+                            if r["stats"]:
+                                merge_stats(acc["stats"], r["stats"])
+                            acc["problems"] += r["problems"]
+                            acc["digests"] |= r["digests"]
+                            acc["samples"] += r["samples"]
+                            for k in ("t_total", "cpu_llvm", "cpu_py"):
+                                acc[k] += r[k]
+                            if left[0] > 0:
+                                continue
+                            try:
+                                os.remove(acc["asm"])
+                            except OSError:
+                                pass
+                            acc["asm"] = None
+                            r = acc
+                        results[r["id"]] = r
+                        done += 1
+                        if done % 500 == 0:
+                            vcommon.log("  c10: %d/%d files analysed (%.0fs)" % (done, len(jobs), time.time() - t0))
 
         total = {}
         per_cfg = {}
@@ -362,6 +455,8 @@ def main(tier):
         samples = []
         found = []   # (cls, sub, backend, target, sym, text, data, job)
         files_ok = 0
+        by_prog = {}
+        must_failed = []
         timing = {}
         for j in jobs:
             r = results[j["id"]]
@@ -371,14 +466,17 @@ def main(tier):
                 raise vcommon.MachineryError("%s [%s]: %s" % (j["label"], cfg_name(j), r["error"]))
             if r["skipped"]:
                 if j["must"]:
-                    raise vcommon.MachineryError("%s [%s] does not compile: %s" % (j["label"], cfg_name(j), r["skipped"]))
+                    must_failed.append("%s [%s] does not compile: %s" % (j["label"], cfg_name(j), r["skipped"][-400:]))
                 skipped.append({"file": j["label"], "config": cfg_name(j), "why": r["skipped"][-200:]})
                 continue
             files_ok += 1
-            tm = timing.setdefault("%s/%s" % (j["backend"], j["target"]), [0, 0.0, 0.0])
+            tm = timing.setdefault("%s %s/%s" % (j["family"], j["backend"], j["target"]), [0, 0.0, 0.0, 0.0, 0.0, 0.0])
             tm[0] += 1
             tm[1] += r.get("t_compile", 0)
             tm[2] += r.get("t_total", 0) - r.get("t_compile", 0)
+            tm[3] += r.get("cpu_compile", 0)
+            tm[4] += r.get("cpu_llvm", 0)
+            tm[5] += r.get("cpu_py", 0)
             merge_stats(total, r["stats"])
             pc = per_cfg.setdefault(cfg_name(j), {"files": 0, "functions": 0, "call_sites_required": 0, "gcpoints": 0})
             pc["files"] += 1
@@ -388,6 +486,7 @@ def main(tier):
             pf["files"] += 1
             pf["functions"] += r["stats"]["functions"]
             digests |= r["digests"]
+            by_prog.setdefault((j["label"], j["backend"], j["target"]), {})[j["gc"] or "swiper"] = r["digests"]
             for s in r["samples"]:
                 if len(samples) < 6:
                     samples.append({"file": j["label"], "config": cfg_name(j), **s})
@@ -413,32 +512,45 @@ def main(tier):
                     j["label"], cfg_name(j), sym, cls, text, n_sites, len(names))
                 c.violation(key, what, replay_object(j, cls, sub, None if sym == "-" else sym, text, data))
 
-        for k, (n, tc, ta) in sorted(timing.items()):
-            vcommon.log("  c10: %s: %d files, compile %.0f cpu-s, analysis %.0f cpu-s" % (k, n, tc, ta))
+        # measured: which collectors lead to the same code + stack maps (only programs compiled for all four)
+        equiv = {"programs_x_configurations": 0, "copy=sweep=zero": 0, "swiper=copy": 0}
+        for (label, be, tg), d in by_prog.items():
+            if len(d) == 4:
+                equiv["programs_x_configurations"] += 1
+                equiv["copy=sweep=zero"] += int(d["copy"] == d["sweep"] == d["zero"])
+                equiv["swiper=copy"] += int(d["swiper"] == d["copy"])
+        if must_failed and not c.violations:
+            # programs that must compile (hello world, the compiler image, generated units) did not, and nothing that was
+            # analysed explains it: the toolchain is broken in a way this check does not judge
+            raise vcommon.MachineryError("; ".join(must_failed[:3]))
+        for k, (n, tc, ta, cc, cl, cp) in sorted(timing.items()):
+            vcommon.log("  c10: %-28s %4d files: wall compile %.0fs analysis %.0fs | cpu compile %.0fs llvm-mc %.0fs python %.0fs" % (k, n, tc, ta, cc, cl, cp))
         evaluations = (total.get("functions", 0) + total.get("call_sites_required", 0) + total.get("call_sites_optional", 0)
                        + total.get("gcpoints", 0) + total.get("locations", 0))
         c.coverage = {
             "evaluations": evaluations,
             "distinct_nontrivial": len(digests),
             "rule": "space = every function of every .s emitted for: hello world; the optimizing compiler's image (pkgs/boots + the "
-                    "part of pkgs/std it reaches%s); %s of test/rt (%d files); generated units of the families call, data, coll, compose, trap "
-                    "(lambdas, trait objects, generics, tuples, structs with references, collections, every trap kind) x {cannon x64, boots x64, "
-                    "boots arm64} x collectors %s (corpus: swiper+copy%s). Every function of every file is disassembled (llvm-mc, linear sweep "
+                    "part of pkgs/std it reaches%s); %s of test/rt (%d files); generated units of the families call, data, coll, compose, trap, stdlib "
+                    "(lambdas, trait objects, generics, tuples, structs with references, collections, every trap kind, the public functions of pkgs/std) x {cannon x64, boots x64, "
+                    "boots arm64} x collectors %s (corpus: swiper%s). Every function of every file is disassembled (llvm-mc, linear sweep "
                     "cross-checked against the call relocations) and checked; nothing is sampled inside a file. evaluations = functions + call "
                     "sites + stack maps + location entries examined. distinct_nontrivial = distinct (architecture, code bytes, stack maps) of "
                     "functions that own at least one stack map, counted by hash over all files." % (
-                        "" if tier == "quick" else "; also its --test image", "a fixed 5 % (rotated by VERIF_SEED)" if tier == "quick" else "every file",
+                        "" if tier == "quick" else "; also its --test image", "a fixed 4 % (rotated by VERIF_SEED)" if tier == "quick" else "every file",
                         nfiles, "swiper, copy" if tier == "quick" else "swiper, copy, sweep, zero",
-                        " only in quick" if tier == "quick" else "; sweep and zero on every 8th file, their code differs from copy's only in the collector byte"),
+                        " only in quick" if tier == "quick" else ", copy for the optimizing generator on every 2nd file, all four collectors for all configurations on every 16th file"),
             "samples": samples,
             "exhaustive": True,
             "programs": nfiles,
             "files_analysed": files_ok,
             "files_skipped": len(skipped),
             "skipped": skipped[:60],
+            "required_programs_that_did_not_compile": must_failed[:10],
             "skipped_why": "compile -S failed for this file/configuration (programs that are expected not to compile, need extra packages, or hit a "
                            "compiler limit); the property speaks about emitted artifacts only",
             "per_configuration": per_cfg,
+            "collector_code_equivalence": equiv,
             "per_family": per_family,
             "reports_before_grouping": len(found),
         }
@@ -476,7 +588,7 @@ def replay(path):
         arch = "x64" if r["target"] == "x64" else "arm64"
         sym = r.get("symbol")
         file_level = sym is None or r["class"] in ("function-table", "code-range", "metadata-slices", "metadata-malformed")
-        problems, st, _, _ = analyse_file(asm, arch, only=None if file_level else {sym})
+        problems, st, _, _ = analyse_file(asm, arch, only=None if file_level else {sym}, tmpdir=scratch)
         same = [p for p in problems if p.cls == r["class"] and (sym is None or p.sym == sym)]
         print("function %s: %d problem(s) now, %d of class %s" % (sym, len(problems), len(same), r["class"]))
         for p in same[:10]:
